@@ -673,7 +673,21 @@ pub mod rand_shim {
                     }
                     match default {
                         k::DrawPolicy::Const(v) => v,
-                        k::DrawPolicy::Tape => st.tape.draw_u64(),
+                        k::DrawPolicy::Tape => {
+                            // The library redraws while it gets 0; an
+                            // exhausted replay tape yields 0 forever, so
+                            // a run of zeros is cut short.
+                            let v = st.tape.draw_u64();
+                            if v == 0 {
+                                p.zero_streak += 1;
+                                if p.zero_streak > 2 {
+                                    return 1;
+                                }
+                            } else {
+                                p.zero_streak = 0;
+                            }
+                            v
+                        }
                         k::DrawPolicy::FireMix(pm) => {
                             if st.tape.chance(pm) {
                                 1
